@@ -241,6 +241,41 @@ impl Adapter for SharedStore {
 
 /// A live replica refreshes while files arrive; an item that was already seen by an earlier refresh is damaged in
 /// place before the block depending on it becomes applicable. The damaged item must not be trusted.
+/// A live replica that has read (and verified) every object reads them again after one byte of the pack was replaced
+/// in place: each read fails or returns the value read before, never altered content (object cache capacity 1, so the
+/// values come from storage again).
+pub fn live_read_damage() {
+    sym::set_env("MELDA_DATA_CACHE_CAP", 1);
+    let (src, s1, _s2, items1, _items2) = two_commits();
+    let map = Arc::new(Mutex::new(BTreeMap::new()));
+    let ad: Ad = Arc::new(RwLock::new(Box::new(SharedStore { map: map.clone() })));
+    for k in &items1 {
+        ad.write().unwrap().write_object(k, &src.read().unwrap().read_object(k, 0, 0).unwrap()).unwrap();
+    }
+    let mut t = Melda::new(ad.clone()).expect("Melda::new");
+    assert!(state(&t) == s1, "first commit not applied");
+    let mut ids: Vec<String> = t.get_all_objects().into_iter().collect();
+    ids.sort();
+    let before: Vec<Option<serde_json::Map<String, serde_json::Value>>> = ids.iter().map(|id| t.get_value(id, None).ok()).collect();
+    let k1 = items1.iter().find(|k| k.ends_with(".pack")).expect("first commit wrote a pack").clone();
+    {
+        let mut m = map.lock().unwrap();
+        let mut c: Vec<u8> = m.get(&k1).unwrap().clone();
+        let pos = sym::choose(c.len());
+        let nb = sym::any_u8();
+        sym::assume(nb != c[pos]);
+        c[pos] = nb;
+        m.insert(k1.clone(), c);
+    }
+    let _ = t.refresh();
+    for (i, id) in ids.iter().enumerate() {
+        if let Ok(v) = t.get_value(id, None) {
+            assert!(Some(v) == before[i], "altered stored content was exposed by a read");
+        }
+    }
+    sym::reach(1);
+}
+
 pub fn live_damage() {
     let (src, s1, s2, items1, items2) = two_commits();
     let map = Arc::new(Mutex::new(BTreeMap::new()));
